@@ -579,3 +579,66 @@ theorem mem_insertByMin {b c : Meta} : ∀ {l : List Meta}, c ∈ insertByMin b 
       · rintro (h | h | h) <;> simp [h]
 
 end Thanos.Planner
+
+namespace Thanos.Planner
+
+/-! ### the loops of the two wrapping planners terminate -/
+
+theorem countP_lt_of_imp' {α : Type} (p q : α → Bool) : ∀ (l : List α) (u : α),
+    (∀ w ∈ l, p w = true → q w = true) → u ∈ l → q u = true → p u = false → l.countP p < l.countP q
+  | [], u, _, hu, _, _ => by simp at hu
+  | a :: l, u, himp, hu, hq, hp => by
+    have hmono : l.countP p ≤ l.countP q :=
+      List.countP_mono_left (fun w hw h => himp w (List.mem_cons_of_mem _ hw) h)
+    rcases List.mem_cons.mp hu with rfl | hu'
+    · simp [hq, hp]; omega
+    · have ih := countP_lt_of_imp' p q l u (fun w hw => himp w (List.mem_cons_of_mem _ hw)) hu' hq hp
+      have ha := himp a (by simp)
+      simp only [List.countP_cons]
+      cases hpa : p a <;> cases hqa : q a <;> simp <;> first | omega | (simp [hpa, hqa] at ha)
+
+/-- the block the size loop decides to mark is a block of the plan it scanned -/
+theorem sizeScan_mem (limit : Int) : ∀ (p : List Meta) (total : Int) (mx : Option Int) (big : Option Meta) (b : Meta),
+    sizeScan limit p total mx big = some b → b ∈ p ∨ big = some b
+  | [], _, _, _, _, h => by simp [sizeScan] at h
+  | m :: rest, total, mx, big, b, h => by
+    unfold sizeScan at h
+    cases mx with
+    | none =>
+      simp only at h
+      split at h
+      · simp only [Option.some.injEq] at h; subst h; exact Or.inl (by simp)
+      · rcases sizeScan_mem limit rest _ _ _ b h with h' | h'
+        · exact Or.inl (List.mem_cons_of_mem _ h')
+        · simp only [Option.some.injEq] at h'; subst h'; exact Or.inl (by simp)
+    | some s =>
+      simp only at h
+      by_cases hs : s < m.isize
+      · simp only [hs, if_true] at h
+        split at h
+        · simp only [Option.some.injEq] at h; subst h; exact Or.inl (by simp)
+        · rcases sizeScan_mem limit rest _ _ _ b h with h' | h'
+          · exact Or.inl (List.mem_cons_of_mem _ h')
+          · simp only [Option.some.injEq] at h'; subst h'; exact Or.inl (by simp)
+      · simp only [hs, if_false] at h
+        split at h
+        · exact Or.inr h
+        · rcases sizeScan_mem limit rest _ _ _ b h with h' | h'
+          · exact Or.inl (List.mem_cons_of_mem _ h')
+          · exact Or.inr h'
+
+/-- the blocks of the group that are not (yet) excluded: what every round of the size loop decreases -/
+def free (excl : Excl) (ms : List Meta) : Nat := ms.countP (fun m => !excl m.id)
+
+theorem free_lt_of_mark (excl : Excl) (ms : List Meta) (b : Meta) (hb : b ∈ ms) (he : excl b.id = false) :
+    free (fun i => i = b.id || excl i) ms < free excl ms := by
+  unfold free
+  apply countP_lt_of_imp' _ _ ms b
+  · intro w _ hw
+    simp only [Bool.not_eq_true', Bool.or_eq_false_iff, decide_eq_false_iff_not] at hw
+    simp [hw.2]
+  · exact hb
+  · simp [he]
+  · simp
+
+end Thanos.Planner
